@@ -1,4 +1,5 @@
 import QModel.C09
+import QProofs.C08
 import QProofs.Bridge
 import Mathlib.LinearAlgebra.Matrix.NonsingularInverse
 import Mathlib.LinearAlgebra.Matrix.DotProduct
@@ -203,5 +204,55 @@ theorem lsqCert_iff {K : Type} [Add K] [Mul K] [Sub K] [Neg K] [Zero K] [LE K] [
     lsqCert A b f v tol = true ↔
       ∀ i, -tol ≤ (normalResidual A b f v).get i ∧ (normalResidual A b f v).get i ≤ tol := by
   simp [lsqCert, List.all_eq_true]
+
+end QM.C09
+
+/-! ## bridge to the C08 forward model (lists) -/
+namespace QM.C09
+open QM.C08
+variable {K : Type} {mm nn : Nat}
+
+/-- rows of an executable matrix as lists -/
+def rowsOf (A : Mat K mm nn) : List (List K) := A.toList.map Vector.toList
+
+theorem zipWith_mul_eq [Mul K] (l : List K) (v : Vec K nn) (h : l.length = nn) :
+    List.zipWith (· * ·) l v.toList = (List.finRange nn).map fun k => l[k.val]'(by rw [h]; exact k.isLt) * v.get k := by
+  apply List.ext_getElem
+  · simp [h]
+  · intro i h1 h2
+    simp [Vec.get]
+
+theorem mulVec_toList [Add K] [Mul K] [Zero K] (A : Mat K mm nn) (v : Vec K nn) :
+    (A.mulVec v).toList = (rowsOf A).map fun row => ldot row v.toList := by
+  apply List.ext_getElem
+  · simp [rowsOf]
+  · intro i h1 h2
+    have hi : i < mm := by simpa using h1
+    simp only [rowsOf, List.getElem_map, Vector.getElem_toList, Mat.mulVec, Vec.ofFn, Vector.getElem_ofFn,
+      fsum, ldot]
+    rw [zipWith_mul_eq (A[i]).toList v (by simp)]
+    congr 2
+
+theorem add_toList [Add K] (u w : Vec K mm) :
+    (u.add w).toList = List.zipWith (· + ·) u.toList w.toList := by
+  apply List.ext_getElem
+  · simp
+  · intro i h1 h2
+    simp [Vec.add, Vec.ofFn, Vec.get]
+
+theorem predictRaw_eq [Add K] [Mul K] [Zero K] (cs : List (Coeff K)) (v : List K) :
+    predictRaw cs v = List.zipWith (· + ·) ((matA cs).map fun row => ldot row v) (vecB cs) := by
+  simp only [predictRaw, matA, vecB, List.map_map, List.zipWith_map_left, List.zipWith_map_right]
+  apply List.ext_getElem
+  · simp
+  · intro i h1 h2
+    simp
+
+
+/-- the forward model as executed by C09 (`A v + b` on vectors) is the C08 prediction `matA @ var + vecB` -/
+theorem forward_toList [Add K] [Mul K] [Zero K] (cs : List (Coeff K)) (A : Mat K mm nn) (b : Vec K mm)
+    (hA : rowsOf A = matA cs) (hb : b.toList = vecB cs) (v : Vec K nn) :
+    ((A.mulVec v).add b).toList = predictRaw cs v.toList := by
+  rw [add_toList, mulVec_toList, hA, hb, predictRaw_eq]
 
 end QM.C09
